@@ -49,53 +49,72 @@ func (r *verifChunks) Read(p []byte) (int, error) {
 	return n, nil
 }
 
-// verifContentChunk: one chunk of input: pointer-like text (see
-// verifPointerLikeInput) or arbitrary bytes of arbitrary length.
-func verifContentChunk(tag string, maxLen int) string {
-	switch verifChoose(tag+".kind", 3) {
+// verifDrain hands the engine everything that is left (used by its io.Copy
+// summary: copying does not depend on chunking); unused natively.
+func (r *verifChunks) verifDrain() string {
+	rest := ""
+	for _, c := range r.chunks {
+		rest += c
+	}
+	r.chunks = nil
+	return rest
+}
+
+// verifInput builds the input stream as head ++ t1 ++ t2:
+//   head: pointer-like lines, a well-formed pointer, or printable bytes
+//   t1:   ASCII letters (what the 1024-byte sniff may still see)
+//   t2:   arbitrary bytes of any length (never inspected; present only when
+//         head++t1 already fills the 1024-byte sniff window)
+// and the way it is cut into pipe chunks (at the part boundaries).
+func verifInput() (in string, chunks []string) {
+	var head string
+	hasT1 := verifChoose("has.t1", 2) == 1
+	switch verifChoose("head.kind", verifBound("head.kinds", 2, 3)) {
+	case 2:
+		head = verifPointerLikeInputT(verifBound("lines", 3, 4), verifBound("line.len", 80, 120), !hasT1)
 	case 0:
-		return verifPointerLikeInput(verifBound("lines", 2, 4), verifBound("line.len", 80, 120))
-	case 1:
-		// a well-formed pointer (any oid, any size), possibly with surrounding white space
-		oid := verifNondetString(tag + ".oid")
+		oid := verifNondetString("head.oid")
 		verifAssumeAlphabet(oid, "09af")
 		verifAssume(len(oid) == 64)
-		size := verifNondetString(tag + ".size")
+		size := verifNondetString("head.size")
 		verifAssumeAlphabet(size, "09")
 		verifAssume(len(size) >= 1 && len(size) <= 15)
-		lead := verifNondetString(tag + ".lead")
-		trail := verifNondetString(tag + ".trail")
-		verifAssumeClass(lead, "asciiws")
-		verifAssumeClass(trail, "asciiws")
-		verifAssume(len(lead) <= 2 && len(trail) <= 2)
-		return lead + "version https://git-lfs.github.com/spec/v1\noid sha256:" + oid + "\nsize " + size + trail
+		trail := []string{"", "\n", "\r\n", "\n\n"}[verifChoose("head.trail", 4)]
+		head = "version https://git-lfs.github.com/spec/v1\noid sha256:" + oid + "\nsize " + size + trail
+	case 1:
+		head = ""
 	}
-	s := verifNondetString(tag + ".bytes")
-	verifAssume(len(s) >= 1 && len(s) <= maxLen)
-	verifAssumeClass(s, "trimmed")
-	// arbitrary bytes here means bytes without the marker words the pointer
-	// sniffer looks for (content with them is the pointer-like kind)
-	verifAssume(verifNot(verifOr(strings.Contains(s, "git-lfs"), verifOr(strings.Contains(s, "git-media"), strings.Contains(s, "hawser")))))
-	return s
+	t1 := ""
+	if hasT1 {
+		t1 = verifNondetString("t1")
+		verifAssume(len(t1) >= 1 && len(t1) <= 1100)
+		verifAssumeAlphabet(t1, "AZaz")
+		verifAssume(verifNot(verifOr(strings.Contains(t1, "git-lfs"), verifOr(strings.Contains(t1, "git-media"), strings.Contains(t1, "hawser")))))
+	}
+	t2 := ""
+	if t1 != "" && verifChoose("has.t2", 2) == 1 {
+		t2 = verifNondetString("t2")
+		verifAssume(len(t2) >= 1 && len(t2) <= 4000000)
+		verifAssume(len(head)+len(t1) >= 1024)
+	}
+	in = head + t1 + t2
+	verifAssume(len(in) >= 1)
+	if verifChoose("one.chunk", 2) == 1 {
+		return in, []string{in}
+	}
+	return in, []string{head, t1, t2}
 }
 
 // VerifC01_CopyToTemp: whatever way the input is chunked and whatever file
 // size the caller found at the path, cleaning stores exactly the input and
 // names it by its SHA-256 and length - unless the whole input is a pointer.
 func VerifC01_CopyToTemp() {
-	a := verifContentChunk("first", 5000)
-	verifAssume(len(a) >= 1) // the empty input is VerifC01_Empty
-	b := ""
-	if verifChoose("more", 2) == 1 {
-		b = verifNondetString("second.bytes")
-		verifAssume(len(b) >= 1 && len(b) <= 1000000)
-	}
-	in := a + b
+	in, chunks := verifInput()
 	fileSize := verifNondetInt64("filesize")
-	verifAssume(fileSize >= -1 && fileSize <= 2000000)
-	rd := &verifChunks{chunks: []string{a, b}, eofWithLast: verifNondetBool("eof.with.last")}
-	// known findings (DESIGN.md section 8)
-	verifKnown("C01-F1-short-first-read", len(a) < 1024 && len(b) > 0)
+	verifAssume(fileSize >= -1 && fileSize <= 5000000)
+	rd := &verifChunks{chunks: chunks, eofWithLast: verifNondetBool("eof.with.last")}
+	// findings fixed by commits 267f019 / 8f394e3 (regions kept so that a regression is named)
+	verifKnown("C01-F1-short-first-read", len(chunks) > 1 && len(chunks[0]) < 1024 && len(in) > len(chunks[0]))
 	verifKnown("C01-F2-filesize-not-beyond-first-1024", fileSize >= 0 && fileSize <= 1024 && len(in) > 1024)
 	f := &GitFilter{}
 	oid, size, tmp, err := f.copyToTemp(rd, fileSize, nil)
